@@ -2,7 +2,7 @@
    Statements only; proofs in Proofs/CoreProofs.v, Proofs/BinomialLaw.v, Lib/Shuffle*.v, Lib/Counting.v. *)
 From PV Require Import Lib.Base Model.Prng Model.Core Proofs.CoreProofs.
 From mathcomp Require Import all_ssreflect.
-From PV Require Import Lib.Shuffle Lib.ShuffleTape Lib.Counting Proofs.BinomialLaw.
+From PV Require Import Lib.Shuffle Lib.ShuffleTape Lib.Counting Proofs.BinomialLaw Proofs.AllocUniform.
 Local Open Scope nat_scope.
 
 (* (1) p-value formula: for every data set, statistic, alternative, plus1, reps and EVERY tape on which the
@@ -96,4 +96,16 @@ Example C01_nonvacuous :
   | Ok r => Qeq_bool (pval r) 1 && Nat.eqb (List.length (dist r)) 2
   | Err _ => false
   end = true.
+Proof. vm_compute. reflexivity. Qed.
+
+(* allocations are equally likely: of the n! orders of the units exactly k!(n-k)! put a given k-subset A first --
+   the same number for every A -- so the uniform order of C01_rearrangements/fisher_yates_uniform induces the uniform
+   law on the C(n,k) treatment allocations of two_sample (any duplicate-free unit list, any subset, any k) *)
+Theorem C01_allocations_equally_likely : forall (T : eqType) (l A : seq T) k,
+  uniq l -> uniq A -> {subset A <= l} -> size A = k ->
+  count (fun p => perm_eq (take k p) A) (permutations l) = k`! * (size l - k)`!.
+Proof. exact alloc_count. Qed.
+Print Assumptions C01_allocations_equally_likely.
+Example C01_allocations_nonvacuous :
+  count (fun p => perm_eq (take 2 p) [:: 3; 1]) (permutations [:: 0; 1; 2; 3; 4]) = 12.
 Proof. vm_compute. reflexivity. Qed.
